@@ -6,6 +6,7 @@
    [first_some (map (fun i => lookup k (part i)) ins)] reads: the entry of the earliest input that defines k. *)
 From Coq Require Import List Bool String ZArith.
 From KV Require Import Eqb AL Str.
+From KV.Gen Require Import Tables.
 From KV.Model Require Import MMergeKeep.
 From KV.Proofs Require Import PMergeKeep.
 Import ListNotations.
@@ -13,6 +14,34 @@ Local Open Scope string_scope.
 Local Open Scope list_scope.
 
 Notation merged skip st ho ins d f := (merge_keep skip st ho ins = Ok (d, f)).
+
+(* ------------------------------------------------------------------ 0. the model covers every part of a dataset
+   Tables.parts / Tables.csv_files are read from the tree under test on every run (Kapture.__init__ parameters,
+   CSV_FILENAMES with "is a RecordsFilePath"): a new dataset part, or a new kind of record stored in files, that the
+   model (hence the merge it mirrors) does not know makes these two statements fail to compile. *)
+Definition part_name (p : part) : string :=
+  match p with
+  | PSensors => "sensors" | PRigs => "rigs" | PTraj => "trajectories" | PRCam => "records_camera"
+  | PRDepth => "records_depth" | PRLidar => "records_lidar" | PWifi => "records_wifi" | PBt => "records_bluetooth"
+  | PGnss => "records_gnss" | PAccel => "records_accelerometer" | PGyro => "records_gyroscope" | PMag => "records_magnetic"
+  | PKp => "keypoints" | PDesc => "descriptors" | PGf => "global_features" | PMatches => "matches"
+  | PObs => "observations" | PPoints => "points3d"
+  end.
+Definition modelled_parts : list part :=
+  [PSensors; PRigs] ++ map part_of_t [TTraj] ++ map part_of_r [RCam; RDepth; RLidar] ++ map part_of_n [NWifi; NBt]
+  ++ map part_of_t [TGnss; TAccel; TGyro; TMag] ++ map part_of_i [IKp; IDesc; IGf] ++ [PMatches]
+  ++ [PObs; PPoints] (* the last two: property C11 *).
+Definition rec_class (r : rpart) : string :=
+  match r with RCam => "RecordsCamera" | RDepth => "RecordsDepth" | RLidar => "RecordsLidar" end.
+
+Theorem C09_every_part_is_modelled : map part_name modelled_parts = Tables.parts.
+Proof. vm_compute. reflexivity. Qed.
+Print Assumptions C09_every_part_is_modelled.
+
+Theorem C09_every_file_record_kind_is_transferred :
+  map (fun e => fst (fst e)) (List.filter (fun e => snd e) Tables.csv_files) = map rec_class [RCam; RDepth; RLidar].
+Proof. vm_compute. reflexivity. Qed.
+Print Assumptions C09_every_file_record_kind_is_transferred.
 
 (* ------------------------------------------------------------------ 1. first wins, per key arity *)
 (* one key: sensors (never skipped) *)
